@@ -366,7 +366,15 @@ fn dash_unescape_and_trim(text: &str) -> String {
         out += trimmed;
 
         // append line ending
-        out += end;
+        //
+        // A CR that ends the line's content (once the blanks behind it are gone) is content:
+        // the line ending is spelled out, so that line ending normalization does not take
+        // that CR and the "\n" for an existing "\r\n".
+        if end == "\n" && trimmed.ends_with('\r') {
+            out += "\r\n";
+        } else {
+            out += end;
+        }
     }
 
     out
